@@ -119,4 +119,52 @@ example : (solve ⟨[['a'], ['b'], ['c']], [], [], [['b']]⟩
     [.grp .justOne [.leaf ['a'] none, .leaf ['b'] none], .cond false ['c'] [.leaf ['a'] none]]).map onOf
     = [[['b']], [['a']], [['c'], ['a']]] := by decide
 
+/-- **The preferred assignment is the one the property words** — stated flag by flag, with no reference to `domainOf` or
+to the order of its values (`preferred` above is "the last value of every domain"; a model that listed the two-valued
+domains the other way round would still satisfy `preferred_first`, but not this): the preferred assignment gives every
+variable of the problem exactly one value, and that value is *on* iff the package has the flag (IUSE) and either the
+flag is forced on, or it is not forced off and is in the preferred-on set.  Hence: forced-on flags on, forced-off flags
+off, preferred flags on, all others — and, as `find_constraint_satisfaction` intersects every set with `iuse` and gives
+the remaining mentioned flags the domain `(False,)`, every flag outside IUSE whether forced or preferred — off.
+Hypothesis: no IUSE flag is forced both ways (`add_variable` raises AssertionError for such a query). -/
+theorem preferred_is_property_preference (inp : Inputs) (vars : List Tok)
+    (hdis : ∀ f, f ∈ inp.iuse → f ∈ inp.forceT → f ∉ inp.forceF) :
+    (preferred inp vars).map (·.1) = vars ∧
+    ∀ v b, (v, b) ∈ preferred inp vars →
+      (b = true ↔ v ∈ inp.iuse ∧ (v ∈ inp.forceT ∨ (v ∉ inp.forceF ∧ v ∈ inp.preferT))) := by
+  rw [preferred_eq_wording inp vars hdis]
+  refine ⟨by simp [preferredByWording, List.map_map, Function.comp_def], fun v b hvb => ?_⟩
+  simp only [preferredByWording, List.mem_map, Prod.mk.injEq] at hvb
+  obtain ⟨w, _, rfl, rfl⟩ := hvb
+  simp [preferredOn]
+
+/-- IUSE a b c d e; a forced on, b forced off (and in the preferred set: forcing wins), c preferred, d plain; e preferred but
+also forced off; y forced on and z preferred but both outside IUSE: exactly a and c are on -/
+example : preferred ⟨[['a'], ['b'], ['c'], ['d'], ['e']], [['a'], ['y']], [['b'], ['e']], [['b'], ['c'], ['e'], ['z']]⟩
+      [['a'], ['b'], ['c'], ['d'], ['e'], ['y'], ['z']]
+    = [(['a'], true), (['b'], false), (['c'], true), (['d'], false), (['e'], false), (['y'], false), (['z'], false)] := by decide
+/-- the hypothesis holds of that input -/
+example : ∀ f, f ∈ [['a'], ['b'], ['c'], ['d'], ['e']] → f ∈ [['a'], ['y']] → f ∉ ([['b'], ['e']] : List Tok) := by decide
+
+/- Full statement (no hypothesis) is false of the model: with a flag of IUSE in both forced sets the model's domain is
+`[false]` while the wording says "forced on"; the real code raises AssertionError there, so there is no answer to compare. -/
+/-- a in IUSE forced both ways: the model says off, the wording's first clause (forced on) says on -/
+theorem preferred_is_property_preference_counterexample :
+    preferred ⟨[['a']], [['a']], [['a']], []⟩ [['a']] = [(['a'], false)] ∧
+    preferredByWording ⟨[['a']], [['a']], [['a']], []⟩ [['a']] = [(['a'], true)] := by decide
+
+/-- **Preference first, in the property's words** (contract model): when the assignment "forced flags as forced,
+preferred flags on, all others off" satisfies the constraints, it is the first solution. -/
+theorem preferred_first_property (inp : Inputs) (ts : List Dep)
+    (hdis : ∀ f, f ∈ inp.iuse → f ∈ inp.forceT → f ∉ inp.forceF)
+    (h : (compiled ts).all (·.eval (onOf (preferredByWording inp (variables inp ts)))) = true) :
+    (solve inp ts).head? = some (preferredByWording inp (variables inp ts)) := by
+  rw [← preferred_eq_wording inp _ hdis] at h ⊢
+  exact preferred_first inp ts h
+
+/-- `|| ( a b c d )`, IUSE a b c d, a forced on, b forced off, c preferred, d plain: the first solution is a and c on -/
+example : ((solve ⟨[['a'], ['b'], ['c'], ['d']], [['a']], [['b']], [['c']]⟩
+    [.grp .or [.leaf ['a'] none, .leaf ['b'] none, .leaf ['c'] none, .leaf ['d'] none]]).map onOf).head?
+    = some [['a'], ['c']] := by decide
+
 end Pkgcore.C10
